@@ -12,6 +12,11 @@ values = None | ['s', seed] (count values expanded from the seed on both sides) 
 literal = 1 (reads only): the AddressRange is the struct literal `AddressRange { start, count }`
 (public fields, harness kind suffix `r`) instead of AddressRange::try_from - the library must
 validate it itself (finding F10, repaired by 3d39d18).
+An optional 8th field `style` selects the submit path: 0 = async Channel, 1 = CallbackSession
+(deprecated callback API), 2 = FfiChannel (try_send, used by the C bindings); harness framing
+suffix `c` / `x`. All three must put the same bytes on the wire (C03_paths_agree); a rejected call
+is signalled as Model/ClientPaths.v says (`<err>/-`: FfiChannel returned the error and the callback
+was never invoked; `<err>/Shutdown`: returned and the dropped promise called back with Shutdown).
 """
 import vlib
 
@@ -31,38 +36,44 @@ def norm(c):
     c = tuple(c)
     if len(c) == 6:
         c = c + (0,)
-    f, k, u, s, n, v, lit = c
+    if len(c) == 7:
+        c = c + (0,)
+    f, k, u, s, n, v, lit, style = c
     if v is not None:
         v = (v[0], tuple(v[1]) if v[0] == 'l' else int(v[1]))
         if v[0] == 'l':
             n = len(v[1])
-    return (f, int(k), int(u), int(s), int(n), v, int(bool(lit)) if int(k) in READS else 0)
+    return (f, int(k), int(u), int(s), int(n), v, int(bool(lit)) if int(k) in READS else 0, int(style))
 
 
 def jcase(c):
-    return [c[0], c[1], c[2], c[3], c[4], (list(c[5]) if c[5] else None), c[6]]
+    return [c[0], c[1], c[2], c[3], c[4], (list(c[5]) if c[5] else None), c[6], c[7]]
+
+
+STYLE_SUFFIX = {0: '', 1: 'c', 2: 'x'}
+STYLE_NAME = {0: 'channel', 1: 'callback', 2: 'ffi'}
 
 
 def line(c):
-    f, k, u, s, n, v, lit = c
+    f, k, u, s, n, v, lit, style = c
     if v is None:
         vs = '-'
     elif v[0] == 's':
         vs = f's{v[1]}'
     else:
         vs = 'l' + ','.join(str(x) for x in v[1])
-    return f'{f} {k}{"r" if lit else ""} {u} {s} {n} {vs}'
+    return f'{f}{STYLE_SUFFIX[style]} {k}{"r" if lit else ""} {u} {s} {n} {vs}'
 
 
 def to_coq(c, tx):
-    f, k, u, s, n, v, lit = c
+    f, k, u, s, n, v, lit, style = c
     if v is None:
         vs = 'Seed 0 0'
     elif v[0] == 's':
         vs = f'Seed {v[1]} {n}'
     else:
         vs = 'Lst ' + vlib.coq_N_list(v[1])
-    return f'({vlib.coq_bool(f == "T")}, {k}, {tx}, {u}, {s}, {n}, {vs})'
+    return f'({vlib.coq_bool(f == "T")}, {vlib.coq_bool(lit)}, {style}, {k}, {tx}, {u}, {s}, {n}, {vs})'
 
 
 def starts_for(r, count):
@@ -84,6 +95,14 @@ def gen_cases(ctx, quick):
               # F10: unvalidated struct literals
               ('T', 1, 1, 0, 0, None, 1), ('T', 3, 1, 65535, 10, None, 1), ('R', 2, 1, 65535, 2, None, 1), ('R', 4, 1, 1, 65535, None, 1),
               ('T', 1, 1, 0, 2001, None, 1), ('T', 3, 1, 65411, 125, None, 1), ('R', 1, 1, 63536, 2000, None, 1)]
+    # every rejection signal of the callback / FfiChannel paths (Model/ClientPaths.v), literal and try_from-accepted ranges
+    for f in 'TR':
+        for k in READS:
+            for style in (1, 2):
+                for (s, n, lit) in [(0, 0, 1), (65535, 0, 1), (65535, 2, 1), (65530, 100, 1), (0, LIMIT[k] + 1, 0), (7, LIMIT[k] + 1, 1), (0, 65535, 0)]:
+                    cases.append((f, k, 1, s, n, None, lit, style))
+                cases.append((f, k, 1, 0, LIMIT[k], None, 0, style))
+                cases.append((f, k, 1, 65536 - LIMIT[k], LIMIT[k], None, 1, style))
     # boundary quantities x start edges x kinds x framings
     for f in 'TR':
         for k in READS:
@@ -156,6 +175,8 @@ def gen_cases(ctx, quick):
     seen, out = set(), []
     for c in cases:
         c = norm(c)
+        if c[7] == 0 and len(out) >= 170:          # submit path: half Channel, a quarter each CallbackSession / FfiChannel (corpus: Channel)
+            c = c[:7] + (r.choice([0, 0, 1, 2]),)
         if c not in seen:
             seen.add(c)
             out.append(c)
@@ -191,11 +212,11 @@ def spec_ok(impl, spec):
     if spec.startswith('SENT '):
         return impl == spec
     res, wire = impl.split(' ', 1)
-    return wire == '-' and res not in ('SENT', 'OK?', 'PANIC', 'BADLINE')
+    return wire == '-' and res.split('/')[0] not in ('SENT', 'OK?', 'PANIC', 'BADLINE', 'LOST', 'HUNG')
 
 
 def why_outside(c):
-    f, k, u, s, n, v, lit = c
+    f, k, u, s, n, v, lit, style = c
     if k in (5, 6):
         return 'in-limits'
     if n == 0:
@@ -210,7 +231,7 @@ def why_outside(c):
 
 
 def key_of(c, impl, spec):
-    fr = ('range-literal.' if c[6] else '') + ('tcp' if c[0] == 'T' else 'rtu')
+    fr = ('range-literal.' if c[6] else '') + ('tcp' if c[0] == 'T' else 'rtu') + ('.' + STYLE_NAME[c[7]] if c[7] else '')
     w = why_outside(c)
     if spec == 'REJECT':
         return f'client.{KIND_NAME[c[1]]}.{w}.{fr}'
@@ -221,9 +242,11 @@ def key_of(c, impl, spec):
 
 def shrink_candidates(c):
     for x in shrink_candidates6(c[:6]):
-        yield norm(tuple(x) + (c[6],))
+        yield norm(tuple(x) + (c[6], c[7]))
     if c[6]:
-        yield norm(tuple(c[:6]) + (0,))
+        yield norm(tuple(c[:6]) + (0, c[7]))
+    if c[7]:
+        yield norm(tuple(c[:7]) + (0,))
 
 
 def shrink_candidates6(c):
@@ -306,6 +329,7 @@ def run(ctx):
         bump(f'kind:{KIND_NAME[c[1]]}')
         bump(f'framing:{fr}')
         bump(f'result:{res}')
+        bump(f'style:{STYLE_NAME[c[7]]}')
         bump(f'domain:{why_outside(c)}')
         if c[1] in READS:
             bump('range:' + ('struct-literal' if c[6] else 'try_from') + ('.invalid' if why_outside(c) in ('count=0', 'address-overflow') else '.valid'))
@@ -316,14 +340,14 @@ def run(ctx):
         if not (ctx.replay and 'cases' in ctx.replay):
             if res == 'PANIC':
                 expect_tx[c[0]] = 0
-            elif res not in NO_TX:
+            elif res.split('/')[0] not in NO_TX:
                 if res == 'SENT' and c[0] == 'T' and tx != expect_tx['T']:
                     tx_bad += 1
                 expect_tx[c[0]] = (expect_tx[c[0]] + 1) % 65536
         if not spec_ok(impl, spec):
             n_spec += 1
             key = key_of(c, impl, spec)
-            cls = (why_outside(c), c[6], spec == 'REJECT')
+            cls = (why_outside(c), c[6], c[7], spec == 'REJECT')
             if key not in reported and len(reported) < 10 and per_class.get(cls, 0) < 2:
                 reported.add(key)
                 per_class[cls] = per_class.get(cls, 0) + 1
@@ -334,7 +358,7 @@ def run(ctx):
                 else:
                     si, sm, ss = impl, model, spec
                 key = key_of(small, si, ss)
-                what = (f'{KIND_NAME[small[1]]}{" (AddressRange struct literal)" if small[6] else ""} unit={small[2]} start={small[3]} count/value={small[4]} values={small[5]} over {"TCP" if small[0] == "T" else "RTU"}: '
+                what = (f'{KIND_NAME[small[1]]}{" (AddressRange struct literal)" if small[6] else ""} via {STYLE_NAME[small[7]]} API unit={small[2]} start={small[3]} count/value={small[4]} values={small[5]} over {"TCP" if small[0] == "T" else "RTU"}: '
                         f'implementation `{si[:90]}` but the protocol Spec says `{ss[:90]}` ({why_outside(small)})')
                 ctx.violation(key, what, {'cases': [jcase(small)], 'impl': si, 'spec': ss, 'model': sm, 'original_case': jcase(c)})
         elif impl != model:
@@ -354,6 +378,8 @@ def run(ctx):
     if not ctx.replay:
         need = ['result:SENT', 'result:CountOfZero', 'result:AddressOverflow', 'result:CountTooLargeForType', 'result:CountTooBigForU16',
                 'result:CountTooBigForType'] + [f'sent:{KIND_NAME[k]}.{fr}' for k in KIND_NAME for fr in ('tcp', 'rtu')]
+        need += ['style:channel', 'style:callback', 'style:ffi', 'result:CountOfZero/-', 'result:AddressOverflow/-', 'result:CountTooLargeForType/-',
+                 'result:CountOfZero/Shutdown', 'result:AddressOverflow/Shutdown', 'result:CountTooLargeForType/Shutdown']
         need += ['range:struct-literal.invalid', 'range:struct-literal.valid', 'range:try_from.invalid', 'range:try_from.valid']
         missing = [n for n in need if classes.get(n, 0) < 3]
         ctx.oblige('generator-reaches-expected-classes', not missing and max_len['T'] == 259 and max_len['R'] == 255,
@@ -363,7 +389,7 @@ def run(ctx):
     ctx.coverage.update({
         'evaluations': len(cases),
         'distinct_nontrivial': len({c for c in cases if c[1] in (5, 6) or c[4] > 0}),
-        'rule': 'cases (framing, kind, unit, start, count|value, values, range-is-struct-literal) from a seeded PRNG: F1/F10 corpus, boundary quantities x start edges x 8 kinds x 2 framings, explicit value lists, random mixture'
+        'rule': 'cases (framing, kind, unit, start, count|value, values, range-is-struct-literal, submit API: Channel / CallbackSession / FfiChannel) from a seeded PRNG: F1/F10 corpus, boundary quantities x start edges x 8 kinds x 2 framings, explicit value lists, random mixture'
                 + ('' if quick else ', exhaustive count sweep 0..2100') + '; non-trivial = non-empty request; distinct by value. Each case runs the real Channel API + ClientLoop over the in-memory wire and is compared with model and Spec evaluated in Coq',
         'samples': [[line(c), r[0][:80]] for c, r in list(zip(cases, results))[:8]],
         'input_classes': classes,
